@@ -67,6 +67,7 @@ def cases(tier, seed):
     for i in range(4):
         out.append({"id": "aberration-zero#%d" % i, "kind": "ab0", "i": i})
     out.append({"id": "interpolation-modes", "kind": "interp"})
+    out.append({"id": "accuracy-options-not-shared", "kind": "accshared"})
     out.append({"id": "lens-orders", "kind": "orders", "tier": tier})
     out.append({"id": "numexpr-shim", "kind": "shim"})
     # detector planes that are not at z = 0
@@ -240,6 +241,41 @@ def _run_vec(case, ck):
     ck.true("reference-resolved-somewhere",
             unresolved < len(POLANG_TIER[case["tier"]]) * len(pts),
             "the Lens(Mie) ladder converged at no point at all (%s)" % v)
+    return digest(*fps)
+
+
+def _run_accshared(case, ck):
+    """setting an accuracy option on ONE theory object (or on the dictionary
+    it was given) must not change other theory objects"""
+    from holopy.scattering.theory import MieLens, AberratedMieLens
+    sph, pts = _setup(1.2, 5.0, 20.0)
+    det = H.det_points(pts[:9])
+    fps = []
+    for cls, args in ((MieLens, (0.8,)), (AberratedMieLens, (0.0, 0.8))):
+        ref = _field(det, sph, cls(*args), _pol(30.0))
+        a = cls(*args)
+        a.calculator_accuracy_kwargs["quad_npts"] = 37
+        ck.trans += 2
+        b = cls(*args)
+        got = _field(det, sph, b, _pol(30.0))
+        ck.true("history-independent", dict(b.calculator_accuracy_kwargs) ==
+                {} and bool(np.array_equal(got, ref)), "%s: after an accuracy "
+                "option was set on another object, a fresh default theory has "
+                "options %r and its field differs by %.2e" %
+                (cls.__name__, b.calculator_accuracy_kwargs,
+                 float(np.abs(got - ref).max())))
+        opts = {"quad_npts": 120}
+        c = cls(*args, calculator_accuracy_kwargs=opts) if cls is MieLens \
+            else cls(*args, calculator_accuracy_kwargs=opts)
+        before = _field(det, sph, c, _pol(30.0))
+        opts["quad_npts"] = 41
+        after = _field(det, sph, c, _pol(30.0))
+        ck.trans += 2
+        ck.true("history-independent", bool(np.array_equal(before, after)),
+                "%s: changing the caller's options dictionary after "
+                "construction changed the theory's field by %.2e" %
+                (cls.__name__, float(np.abs(before - after).max())))
+        fps.append(fp_values(ref))
     return digest(*fps)
 
 
@@ -481,7 +517,7 @@ def _run_cutoff(case, ck):
 
 def run_case(case):
     ck = Checker()
-    fp = {"vec": _run_vec, "ab0": _run_ab0, "interp": _run_interp,
+    fp = {"vec": _run_vec, "ab0": _run_ab0, "interp": _run_interp, "accshared": _run_accshared,
           "orders": _run_orders, "shim": _run_shim, "cutoff": _run_cutoff,
           "largedet": _run_largedet, "detz": _run_detz,
           "history": _run_history}[case["kind"]](case, ck)
